@@ -426,3 +426,15 @@ Print Assumptions C04_arom_h_follows_source.
 Theorem C04_implicify_constants : src_impl_consts = [1; 6; 1; 1; 8; 8; 8; 1] /\ e_num el_H = 1 /\ e_num el_C = 6.
 Proof. exact implicify_constants. Qed.
 Print Assumptions C04_implicify_constants.
+
+(* ==== fourth wave: deferred recalculation (fix_structure over the recorded atoms) ==== *)
+Theorem C04_recalc_loop_fresh : forall g ns g', (forall k, In k ns -> In k (ids g)) -> recalc_loop g ns = Ok g' -> fresh_on g' ns = true.
+Proof. exact recalc_loop_fresh. Qed.
+Print Assumptions C04_recalc_loop_fresh.
+
+Theorem C04_recalc_loop_fresh_example :
+  (exists g', recalc_loop propane_stale [1; 2; 3] = Ok g' /\ map (fun na => a_h (snd na)) (m_atoms g') = [Some 3; Some 2; Some 3] /\
+              fresh_on g' [1; 2; 3] = true /\ stored_ok g' = true) /\
+  (exists g', recalc_loop propane_stale [1; 2] = Ok g' /\ fresh_on g' [1; 2] = true /\ fresh_on g' [1; 2; 3] = false /\ stored_ok g' = false).
+Proof. exact recalc_loop_fresh_example. Qed.
+Print Assumptions C04_recalc_loop_fresh_example.
